@@ -308,3 +308,208 @@ def nul_discipline(chk, P, unit, funcs, rule="R-NUL"):
 
 
 import re
+
+
+# --------------------------------------------------------------------------------------------------------------------------
+# R-DEFFLAG: a function that defines its destination defines the destination's `infinite` flag too
+# --------------------------------------------------------------------------------------------------------------------------
+def _flag_must_written(P, f, summaries):
+    """-> {bitmap parameter name: True/False}: on every non-failing exit of f, has <param>->infinite been stored
+    (directly, or by a callee that stores it on all of its own non-failing exits)?"""
+    T = f.unit.types
+    params = [p["n"] for p in f.params if T[p["t"]].get("prec") == "hwloc_bitmap_s" and not T[p["t"]].get("pconst")]
+    if not params or f.entry is None:
+        return {}
+    canon = []
+    for d in params:
+        I = ("D", "infinite-defined:" + d, frozenset())
+        def m_asg(fct, d=d):
+            return fct[0] == "asg" and fct[1] == "%s->infinite" % d
+        def m_call(fct, d=d):
+            if fct[0] != "call":
+                return False
+            s = summaries.get(fct[1])
+            return bool(s) and any(i < len(fct[2]) and fct[2][i] == d for i in s)
+        canon.append((m_asg, I))
+        canon.append((m_call, I))
+    m = must.Must(f, canon=canon).run()
+    out = {}
+    rets = list(returns(f))
+    for d in params:
+        I = ("D", "infinite-defined:" + d, frozenset())
+        ok = True
+        seen = False
+        for r in rets:
+            v = cval(r["c"][0]) if r.get("c") else None
+            if v is not None and v < 0:
+                continue          # failing exit: the documented contract of a failed definition is not judged here
+            st = m.before.get(r["id"])
+            if st is None:
+                continue          # unreachable
+            seen = True
+            ok = ok and I in st
+        if f.exit in m.inb and not rets:
+            seen = True
+            ok = ok and I in m.inb[f.exit]
+        out[d] = ok and seen
+    return out
+
+
+def flag_defined(chk, P, funcs, rule="R-DEFFLAG"):
+    """every function of `funcs` (they define their destination from their other arguments only) stores the destination's
+    `infinite` flag on every non-failing path, itself or through helpers that do so on all of their non-failing paths:
+    otherwise the result depends on what the destination held before (history dependence)"""
+    u = P.unit("bitmap.c")
+    fs = [f for f in u.funcs(only_main=True) if f.entry is not None]
+    summaries = {}
+    # least fixpoint from below would miss mutual helpers; bitmap.c has no recursion among writers: iterate to stability
+    for _ in range(6):
+        changed = False
+        for f in fs:
+            res = _flag_must_written(P, f, summaries)
+            idx = set(i for i, p in enumerate(f.params) if res.get(p["n"]))
+            if summaries.get(f.name, set()) != idx:
+                summaries[f.name] = idx
+                changed = True
+        if not changed:
+            break
+    n = 0
+    for fname in funcs:
+        f = P.need_func(fname, "bitmap.c")
+        dst, ops = _bm_params(f)
+        if not dst:
+            chk.broke("%s: %s has no destination bitmap" % (rule, fname))
+            continue
+        d = dst[0]
+        i = [k for k, p in enumerate(f.params) if p["n"] == d][0]
+        n += 1
+        ok = i in summaries.get(fname, set())
+        chk.inst(rule, f, "infinite:" + d, ok, "%s defines %s from its other arguments: every non-failing exit is reached after %s->infinite was stored, directly or by a helper that stores it on all of its non-failing exits%s"
+                 % (fname, d, d, "" if ok else " -- but some non-failing path leaves the flag as it was: the result depends on the destination's previous contents"))
+    return n, summaries
+
+
+# --------------------------------------------------------------------------------------------------------------------------
+# R-GROWFIRST: the word count of a set is raised only after the allocation that makes room for it has succeeded
+# --------------------------------------------------------------------------------------------------------------------------
+def growers(P, u):
+    """internal helpers of bitmap.c that can fail because an allocation failed: int functions with a `return -1`, a non-const
+    bitmap parameter, that call realloc/malloc or another grower on that parameter; the public API is not a grower"""
+    import peval
+    api = P.public_api()
+    G = {}
+    canfail = {}
+    fs = [f for f in u.funcs(only_main=True) if f.entry is not None and f.name not in api]
+    for _ in range(4):
+        for f in fs:
+            if f.name in G:
+                continue
+            dst, _ops = _bm_params(f)
+            if not dst or f.unit.types[f.d["ret"]]["s"] != "int":
+                continue
+            if f.name not in canfail:
+                try:
+                    o = peval.PathEval(P, f, {}, is_effect=lambda *z: False, through_effects=True, maxstates=20000, track=set()).run()
+                    canfail[f.name] = any(t[0] == "return" and t[4] for t in o.terminals)
+                except AnalysisBroken:
+                    canfail[f.name] = False
+            if not canfail[f.name]:
+                continue
+            idx = None
+            for c in f.calls():
+                if c.get("fn") in ("realloc", "malloc", "calloc"):
+                    idx = [i for i, p in enumerate(f.params) if p["n"] == dst[0]][0]
+                elif c.get("fn") in G and len(args(c)) > G[c["fn"]] and lv(args(c)[G[c["fn"]]]) in dst:
+                    idx = [i for i, p in enumerate(f.params) if p["n"] == lv(args(c)[G[c["fn"]]])][0]
+            if idx is not None:
+                G[f.name] = idx
+    return G
+
+
+def grow_first(chk, P, rule="R-GROWFIRST"):
+    """explored with <set>->ulongs_count seeded (7) and the scalar parameters bound to other constants; every call of a grower is
+    forked into failed / succeeded; an exit reached with every grower call on the set having failed must still see the seeded
+    count: a count stored before the allocation is known to have succeeded leaves ulongs_count > ulongs_allocated behind"""
+    import peval
+    u = P.unit("bitmap.c")
+    G = growers(P, u)
+    C0 = 7
+    n = 0
+    for f in u.funcs(only_main=True):
+        if f.entry is None:
+            continue
+        dst, _ops = _bm_params(f)
+        sites = {}
+        for c in f.calls():
+            if c.get("fn") in G and len(args(c)) > G[c["fn"]] and lv(args(c)[G[c["fn"]]]) in dst:
+                sites[c["id"]] = lv(args(c)[G[c["fn"]]])
+        # realloc of the word array in the function itself counts as a grow step of that function
+        direct = []       # locals that receive the result of a realloc of the word array made by the function itself
+        for x in f.walk():
+            a = assigned(x)
+            tgt = rhs = None
+            if a and a[1] == "=" and a[2] is not None and strip(a[0])["k"] == "Ref":
+                tgt, rhs = strip(a[0])["n"], strip(a[2])
+            elif x["k"] == "Var" and x.get("c") and x["c"][0] is not None:
+                tgt, rhs = x["n"], strip(x["c"][0])
+            if tgt and rhs is not None and rhs["k"] == "Call" and rhs.get("fn") == "realloc":
+                direct.append(tgt)
+        if not sites and not (direct and dst):
+            continue
+        T = f.unit.types
+        env = {}
+        k = 11
+        for p in f.params:
+            t = T[p["t"]]
+            if not t.get("ptr") and "w" in t:
+                env[p["n"]] = k
+                k += 6
+        keys = set(sites.values()) | (set(dst[:1]) if direct else set())
+        for d in keys:
+            env["%s->ulongs_count" % d] = C0
+            env["%s->ulongs_allocated" % d] = 8
+        bad = {}
+        reached = {}
+        def hook(c, kind, upd, e, sites=sites):
+            d = sites.get(c["id"])
+            if d is None:
+                return
+            if kind == "fail":
+                upd["#gf:" + d] = 1
+            elif kind == "ok":
+                upd["#gok:" + d] = 1
+        def obs(nd, e, direct=direct, dst=dst):
+            # a direct realloc: the forked value @id tells whether it failed
+            pass
+        def obx(kind, nd, e, keys=keys, f=f, bad=bad, reached=reached, direct=direct):
+            for d in keys:
+                failed = e.get("#gf:" + d) and not e.get("#gok:" + d)
+                for x in direct:
+                    if e.get(x) == 0:
+                        failed = True
+                    elif e.get(x) == 1:
+                        failed = False
+                if failed:
+                    reached[d] = True
+                    v = e.get("%s->ulongs_count" % d)
+                    if v != C0:
+                        bad.setdefault(d, (f.loc(nd) if nd is not None else f.name, v))
+                    if direct and e.get("%s->ulongs_allocated" % d) != 8:
+                        bad.setdefault(d, (f.loc(nd) if nd is not None else f.name, "kept, but ulongs_allocated was raised before the reallocation succeeded"))
+        flsl = lambda c, a: (a[0].bit_length() if a and a[0] is not None and a[0] >= 0 else None)
+        try:
+            peval.PathEval(P, f, env, is_effect=lambda *z: False, through_effects=True, fork_hook=hook, observe_exit=obx, maxstates=100000,
+                           call_values={"hwloc_flsl": flsl}, track=set(env) | set(direct)).run()
+        except AnalysisBroken as ex:
+            chk.broke("%s: %s not evaluable (%s)" % (rule, f.name, ex))
+            continue
+        for d in sorted(keys):
+            if not reached.get(d):
+                continue      # no exit with a failed grow (the failure is not propagated as a path here)
+            n += 1
+            hit = bad.get(d)
+            chk.inst(rule, f, "count-after-grow:" + d, hit is None,
+                     "every exit reached after the allocation for %s failed still sees the word count the set had on entry%s"
+                     % (d, "" if hit is None else " -- but the exit at %s is reached with ulongs_count %s: the count was raised before the allocation was known to have succeeded, "
+                        "so the set is left with more words counted than allocated" % (hit[0], "changed" if hit[1] is None else "== %s" % hit[1])))
+    return n, G
